@@ -31,6 +31,19 @@ CHECKS = {
         design_ref="DESIGN.md section 3 C05, section 8",
         technique="who-may-call table; forward must-analysis over MIR CFG; provenance",
     ),
+    "C13": dict(
+        category="other",
+        text="Decides the provenance chain of a source-map entry across three crates: Emitter::push_token anchors a token's text with "
+             "that token's own line and column; process_comment gives every comment of a token a CommentDoc with its own line, column "
+             "and text; doc::anchored stores its parameters under their names; the renderer records (current_line, col+1) for exactly "
+             "that item after flushing the indent and before writing the text (C28's anchor rule, re-decided here); Emitter::emit passes "
+             "every RenderedAnchor of the one render that produced the emitted string to SourceMap::add field-to-parameter by name and "
+             "then builds the map; SourceMap::add subtracts exactly 1 from each coordinate and calls the sourcemap builder in "
+             "(dst_line, dst_col, src_line, src_col) order. It does not decide that every entry is right for every layout, entry order "
+             "inside the sourcemap crate, or per-line coverage.",
+        design_ref="DESIGN.md section 3 C13, section 8.4g",
+        technique="access-path identity of arguments (field-to-parameter agreement); must-pass-through on MIR CFG; small arithmetic shape match",
+    ),
     "C24": dict(
         category="other",
         text="Decides the run-to-run determinism sources on the build path: every iteration over a RandomState-hashed "
